@@ -228,7 +228,9 @@ impl<T> Ref<T> {
 impl Store {
     pub(super) fn last_dependent_accesses(&self, operation: Operation) -> Vec<&Access> {
         let single = match &self.entries[operation.obj.index] {
-            Entry::Arc(entry) => entry.last_dependent_access(operation.action.into()),
+            Entry::Arc(entry) => {
+                return entry.last_dependent_accesses(operation.action.into());
+            }
             Entry::Atomic(entry) => {
                 return entry.last_dependent_accesses(operation.action.into());
             }
@@ -256,7 +258,9 @@ impl Store {
         dpor_vv: &VersionVec,
     ) {
         match &mut self.entries[operation.obj.index] {
-            Entry::Arc(entry) => entry.set_last_access(operation.action.into(), path_id, dpor_vv),
+            Entry::Arc(entry) => {
+                entry.set_last_access(operation.action.into(), thread_id, path_id, dpor_vv)
+            }
             Entry::Atomic(entry) => {
                 entry.set_last_access(operation.action.into(), thread_id, path_id, dpor_vv)
             }
